@@ -408,8 +408,10 @@ Definition pmu (ps : pstate) : nat := psum (p_comps ps) + (length (p_comps ps) -
 Inductive act := AStart | ACall | APanic | ARet.
 (* a phase: the harness performs the actions one after the other without waiting, then lets every
    goroutine run until all are durably blocked; p_gate = false holds the service goroutine before it
-   enters service.Start, p_timer = true lets more than the cool-down of virtual time pass *)
-Record phase := mkPhase { p_acts : list act; p_gate : bool; p_timer : bool }.
+   enters service.Start, p_timer = true lets more than the cool-down of virtual time pass, p_hold = true
+   keeps a call of the wrapped service's Close() from returning (a service whose Close takes long:
+   recoverer.Close stays between service.Close() and its own last step) *)
+Record phase := mkPhase { p_acts : list act; p_gate : bool; p_timer : bool; p_hold : bool }.
 
 Record obs := mkObs {
   o_close : nat;   (* 0 Close not called, 1 nil, 2 ErrServiceNotRunning, 3 other error, 4 did not return *)
@@ -427,6 +429,7 @@ Definition allowed (ph : phase) (l : label) : bool :=
   match l with
   | GEnter => p_gate ph
   | TTimer => p_timer ph
+  | CSigL => negb (p_hold ph)
   | _ => negb (is_env l)
   end.
 
@@ -480,7 +483,7 @@ Definition act_eqb (a b : act) : bool :=
 Definition has_act (a : act) (phs : list phase) : bool := existsb (fun ph => existsb (act_eqb a) (p_acts ph)) phs.
 (* the last phase lets everything settle: gate open, cool-down elapsed *)
 Definition settled (phs : list phase) : bool :=
-  match rev phs with ph :: _ => p_gate ph && p_timer ph | [] => false end.
+  match rev phs with ph :: _ => p_gate ph && p_timer ph && negb (p_hold ph) | [] => false end.
 
 (* the property on one observation *)
 Definition C18_spec (c : scase) : Prop :=
